@@ -60,8 +60,11 @@ class AbstractLinearOperator(lx.AbstractLinearOperator, ABC):  # type: ignore[mi
         result: AbstractLinearOperator = self + (-other)
         return result
 
+    # let NumPy arrays defer to __rmul__ instead of broadcasting over the operator
+    __array_ufunc__ = None
+
     def __mul__(self, other: ScalarLike) -> 'AbstractLinearOperator':
-        return other * self
+        return self.__rmul__(other)
 
     # Mypy type ignore: Forward operator "__mul__" is not callable
     # https://github.com/python/mypy/issues/11595
